@@ -8,8 +8,12 @@
 //|         r is Ok ==> old(self).nxt is StructName && r->Ok_0.name == old(self).nxt->StructName_0
 //|             && (forall|i: int| 0 <= i < 12 ==> dates12(r->Ok_0.dates)[i] == #[trigger] dates@[i] as int),
 //|         !(old(self).nxt is StructName) ==> r is Err,
+//|         // the elements are the ones the element-opening records announced, one per record, in order, each of the announced kind
+//|         r is Ok ==> exists|opens: Seq<GdsRecord>| #[trigger] kinds_ok(r->Ok_0.elems@, opens),
+//@   before /^        loop \{$/
+//|         let ghost mut opens: Seq<GdsRecord> = Seq::empty();
 //@   loop 1
-//|             invariant pwf(*self), pm(*self) <= pm(*old(self)), self.rdr.source.data@ == old(self).rdr.source.data@,
+//|             invariant pwf(*self), pm(*self) <= pm(*old(self)), self.rdr.source.data@ == old(self).rdr.source.data@, kinds_ok(elems@, opens),
 //|                 old(self).nxt is StructName, strukt.name == Some(old(self).nxt->StructName_0), strukt.dates is Some,
 //|                 (forall|i: int| 0 <= i < 12 ==> dates12(strukt.dates->0)[i] == #[trigger] dates@[i] as int), strukt.elems is None,
 //|             decreases pm(*self),
@@ -26,12 +30,19 @@
 //|                     GdsRecord::Boundary => elems@.last() is GdsBoundary, GdsRecord::Text => elems@.last() is GdsTextElem, GdsRecord::Path => elems@.last() is GdsPath,
 //|                     GdsRecord::Box => elems@.last() is GdsBox, GdsRecord::StructRef => elems@.last() is GdsStructRef, GdsRecord::ArrayRef => elems@.last() is GdsArrayRef,
 //|                     GdsRecord::Node => elems@.last() is GdsNode, _ => false });
+//|                 opens = opens.push(r0);
+//|                 assert(kinds_ok(elems@, opens)) by { assert forall|i: int| 0 <= i < elems@.len() implies kind_ok(#[trigger] elems@[i], opens[i]) by { if i < e0.len() { assert(elems@[i] == e0[i]); } } }
 //|             }
+//@   before1 /strukt = strukt\.elems\(elems\);|let strukt = strukt\.build\(\)\?;/
+//|         let ghost ef = elems@;
+//@   before /^        Ok\(strukt\)$/
+//|         proof { assert(strukt.elems@ == ef); assert(kinds_ok(strukt.elems@, opens)); }
 //@ end
 //@ fn gds21/src/read.rs :: impl<R> GdsParser<R> :: fn parse_lib
 //@   attr #[verifier::spinoff_prover] #[verifier::rlimit(60)]
 //@   ret r
 //@   sub R5 /Vec::<GdsStruct>::with_capacity\(1024\)/ => Vec::<GdsStruct>::new()
+//@   sub R3 /Ok\(lib\.build\(\)\?\)/ => let vp_lib = lib.build()?; proof { assert(libb_fold(tr, lf, sf)); assert(vp_lib.structs@ == sf); assert(lib_fold(tr, sf, vp_lib)); } Ok(vp_lib)
 //@   spec
 //|     requires pwf(*old(self)),
 //|     ensures pwf(*final(self)), final(self).rdr.source.data@ == old(self).rdr.source.data@,
@@ -40,8 +51,12 @@
 //|         // <library> ::= HEADER BGNLIB ... : the first record must be HEADER and carries the version
 //|         r is Ok ==> old(self).nxt is Header && r->Ok_0.version == old(self).nxt->Header_version,
 //|         !(old(self).nxt is Header) ==> r is Err,
+//|         // name and units are the LIBNAME / UNITS records' (the last of each), the structures are the parsed ones, in order
+//|         r is Ok ==> exists|tr: Seq<GdsRecord>, ss: Seq<GdsStruct>| #[trigger] lib_fold(tr, ss, r->Ok_0),
+//@   before /^        loop \{$/
+//|         let ghost mut tr: Seq<GdsRecord> = Seq::empty();
 //@   loop 1
-//|             invariant pwf(*self), self.rdr.source.data@ == old(self).rdr.source.data@,
+//|             invariant pwf(*self), self.rdr.source.data@ == old(self).rdr.source.data@, libb_fold(tr, lib, structs@),
 //|                 old(self).nxt is Header, lib.version == Some(old(self).nxt->Header_version), lib.structs is None,
 //|             ensures self.nxt is EndLib,
 //|             decreases pm(*self),
@@ -58,5 +73,12 @@
 //|                     GdsRecord::Units(d0, d1) => lib.units is Some && (lib.units->0).0 == d0 && (lib.units->0).1 == d1 && lib.name == l0.name && lib.version == l0.version && lib.dates == l0.dates && structs@ == s0,
 //|                     GdsRecord::BgnStruct { dates } => lib == l0 && structs@.len() == s0.len() + 1 && structs@.drop_last() == s0,
 //|                     _ => false });
+//|                 let tr1 = tr.push(r0);
+//|                 assert(tr1.drop_last() =~= tr); assert(tr1.last() == r0);
+//|                 assert(libb_step(l0, s0, r0, lib, structs@));
+//|                 assert(libb_fold(tr1, lib, structs@));
+//|                 tr = tr1;
 //|             }
+//@   before1 /lib = lib\.structs\(structs\);|let vp_lib = lib\.build\(\)\?;/
+//|         let ghost lf = lib; let ghost sf = structs@;
 //@ end
